@@ -381,16 +381,18 @@ def pointwise(ctx, block):
 
 def p_levels(N):
     """{k/N, (k-1/2)/N, tiny, 1-tiny, 1} and the C04 levels."""
-    ps = {1e-12, 1 - 1e-12, 1.0, 0.05, 0.2, 1 / 3, 0.5, 0.75}
+    ps = {1e-12, 1 - 1e-12, 1.0, 0.05, 0.2, 1 / 3, 0.5, 0.75, 0.8}
     for k in range(1, N + 1):
         ps.add(k / N)
         ps.add((k - 0.5) / N)
     return sorted(ps)
 
 
-PARAMS = {"erm": [1e-4, 5e-4, 2e-3, 0.1, 1.0, 10.0], "eloss": [0.1, 1.0, 10.0], "iso": [0.25, 0.5, 1.0],
+PARAMS = {"erm": [1e-4, 5e-4, 2e-3, 0.1, 1.0, 10.0], "eloss": [0.1, 1.0, 10.0], "iso": [0.25, 0.5, 1 - 1e-5, 1 - 1e-6, 1 - 5e-7, 1 - 1e-7, math.nextafter(1.0, 0.0), 1.0],
           "qcvar": [1.0, 2.0, 10.0, 100.0], "oce": [-1.0, 0.0, 0.5]}
 
+TINY = [1, 3, 10, 100, 700]             # numerators/8 at scale 8e-6: 1e-6, 3e-6, 1e-5, 1e-4, 7e-4
+MIXED = [1, 2 ** 27, 3 * 2 ** 27]     # numerators/8 at scale 1/4: 1/32, 2^22, 3*2^22 (exact in float32)
 V_MOD = {"via": "module", "shape": "2d"}
 FULL_VARIANTS = [
     {"via": "module", "shape": "2d"},
@@ -456,6 +458,21 @@ def blocks(ctx):
                 for dtype in ("float64", "float32"):
                     out.append({"measure": measure, "N": N, "A": heavy, "params": params, "scale": 1.0,
                                 "dtype": dtype, "variant": V_MOD if measure != "var" else FULL_VARIANTS[5]})
+            if measure == "iso" and N <= 3:
+                # tiny positive outcomes {1e-6, 3e-6, 1e-5, 1e-4, 7e-4} (an almost wiped-out position)
+                for dtype in ("float32", "float64"):
+                    for v in (V_MOD, FULL_VARIANTS[5]):
+                        out.append({"measure": measure, "N": N, "A": TINY, "params": params, "scale": 8e-6,
+                                    "dtype": dtype, "variant": v})
+            if measure in ("es", "var"):
+                # magnitudes MIXED inside one sample: {1/32, 2^22, 3*2^22}; the expected shortfall of small tail
+                # outcomes is exact to eps * (tail magnitude), whatever the size of the outcomes outside the tail
+                for dtype in ("float32", "float64"):
+                    out.append({"measure": measure, "N": N, "A": MIXED, "params": params, "scale": 0.25, "dtype": dtype,
+                                "variant": V_MOD if measure == "es" else FULL_VARIANTS[5]})
+                    if measure == "es":
+                        out.append({"measure": measure, "N": N, "A": MIXED, "params": params, "scale": 0.25,
+                                    "dtype": dtype, "variant": FULL_VARIANTS[7]})
             if measure == "erm" and N in (2, 3):
                 # heavy tail at a large scale (a small risk aversion is not a small exponent there)
                 out.append({"measure": measure, "N": N, "A": [-800, 0, 4], "params": params, "scale": 1e4,
@@ -508,7 +525,8 @@ def run(ctx):
              "parameter of the measure x scale/dtype x call variant (module|functional, shape (N,),(N,M),(N,M,K), "
              "dim, target none|scalar|tensor); one evaluation = one (sample, parameter, variant) compared with the "
              "exact/50-digit reference; non-trivial = non-constant samples.  pointwise: every alphabet value x a; "
-             "topp: every sample x p x largest x dim")
+             "topp: every sample x p x largest x dim; ambient_flag: every sample N<=3 x ES/VaR/topp/QCVaR/entropic call, default mode vs "
+             "torch.use_deterministic_algorithms(True), bitwise")
     ctx.assume("float inputs are taken exactly by the reference (Fraction(float)/mpf(float)); target subtraction "
                "input - target is recomputed with the same IEEE operation")
     ctx.assume("tolerances are derived per measure in mc/models/risk_space.tol_value (rounding model of the "
@@ -542,10 +560,74 @@ def run(ctx):
     for N in ([1, 2, 3, 4] if ctx.quick else [1, 2, 3, 4, 5]):
         ctx.run("pointwise", {"what": "topp", "N": N, "A": A, "params": p_levels(N), "scale": 1.0,
                               "dtype": "float64"})
+    for N in (1, 2, 3):
+        for dtype in ("float64", "float32"):
+            ctx.run("ambient_flag", {"N": N, "A": A, "scale": 1.0, "dtype": dtype})
     for measure in ("qcvar", "var"):
         for dtype in ("float64", "float32"):
             ctx.run("flatten", {"measure": measure, "N": 4, "A": A, "scale": 1.0, "dtype": dtype,
                                 "params": PARAMS["qcvar"] if measure == "qcvar" else p_levels(4)})
+
+
+@family
+def ambient_flag(ctx, block):
+    """torch.use_deterministic_algorithms(True) is an ambient switch that must not change any
+    value: every sample of the block through ES / VaR / topp / quadratic CVaR / entropic risk in the
+    default mode and under the switch, outputs compared bitwise.  An operation that refuses to run
+    under the switch on the tree under test (RuntimeError "does not have a deterministic
+    implementation") is skipped and counted."""
+    import pfhedge.nn.functional as F
+    cols = S.columns(block)
+    N, M = cols.shape
+    x = S.realise(cols, block["scale"], block["dtype"])
+    calls = []
+    for p in p_levels(N):
+        calls.append((f"expected_shortfall(p={p},dim=0)", "expected_shortfall", lambda p=p: F.expected_shortfall(x, p, dim=0)))
+        calls.append((f"expected_shortfall(p={p},dim=1)", "expected_shortfall", lambda p=p: F.expected_shortfall(x.t(), p, dim=1)))
+        calls.append((f"ExpectedShortfall({p})", "ExpectedShortfall", lambda p=p: S.evaluate("es", p, x)))
+        calls.append((f"ExpectedShortfall({p}).cash", "ExpectedShortfall.cash", lambda p=p: S.module("es", p).cash(x)))
+        calls.append((f"value_at_risk(p={p})", "value_at_risk", lambda p=p: F.value_at_risk(x, p, dim=0)))
+        for largest in (True, False):
+            calls.append((f"topp(p={p},largest={largest}).values", "topp",
+                          lambda p=p, largest=largest: F.topp(x, p, dim=0, largest=largest).values))
+            calls.append((f"topp(p={p},largest={largest}) gathered by indices", "topp",
+                          lambda p=p, largest=largest: x.gather(0, F.topp(x, p, dim=0, largest=largest).indices)))
+    for lam in PARAMS["qcvar"]:
+        calls.append((f"quadratic_cvar(lam={lam})", "quadratic_cvar", lambda lam=lam: F.quadratic_cvar(x, lam, dim=0)))
+    for a in PARAMS["erm"]:
+        calls.append((f"entropic_risk_measure(a={a})", "entropic_risk_measure", lambda a=a: F.entropic_risk_measure(x, a)))
+    prev = torch.are_deterministic_algorithms_enabled()
+    warn = torch.is_deterministic_algorithms_warn_only_enabled()
+    for name, site, fn in calls:
+        with torch.no_grad():
+            base = fn()
+        torch.use_deterministic_algorithms(True)
+        try:
+            with torch.no_grad():
+                got = fn()
+        except RuntimeError as e:
+            if "deterministic" in str(e):
+                ctx.add("ops_refusing_deterministic_mode", 1)
+                continue
+            raise
+        finally:
+            torch.use_deterministic_algorithms(prev, warn_only=warn)
+        ctx.tick(M, nontrivial=int((cols != cols[:1]).any(0).sum()))
+        ctx.outcome(("flag", site, tuple(got.shape)))
+        if got.shape != base.shape or not torch.equal(got, base):
+            j = 0
+            if got.shape == base.shape:
+                d = (got != base)
+                while d.dim() > 1:
+                    d = d.any(0)
+                j = int(d.nonzero()[0]) if d.numel() == M else 0
+            mini = {k: block[k] for k in ("scale", "dtype") if k in block}
+            mini["N"] = N
+            mini["cols"] = [S.col_list(cols, j)]
+            ctx.violation(site, "depends_on_deterministic_algorithms_flag",
+                          f"{name} on {x[:, j].tolist()} differs under torch.use_deterministic_algorithms(True)",
+                          observed=got.reshape(-1)[:8].tolist() if got.shape != base.shape else got[..., j].tolist(),
+                          expected=base[..., j].tolist() if got.shape == base.shape else list(base.shape), block=mini)
 
 
 @family
